@@ -169,7 +169,8 @@ def layouts_connected(orders, nprocs):
     return len(seen) == n
 
 
-LAYOUT_NAMES = ['alpha', 'bravo', 'charlie', 'delta', 'echo', 'foxtrot', 'golf', 'hotel']
+LAYOUT_NAMES = ['alpha', 'bravo', 'charlie', 'delta', 'echo', 'foxtrot', 'golf', 'hotel', 'india', 'juliett',
+                'kilo', 'lima']
 
 
 def refusal(e):
